@@ -8,6 +8,7 @@ See DESIGN.md section 5.
 import hashlib
 import importlib
 import json
+import subprocess
 import os
 import sys
 import time
@@ -262,10 +263,33 @@ def check(prop_id, tier):
     lines = []
     if all_fail:
         violations = len(all_fail)
-        first = all_fail[0]
+        # report an input that fails ON ITS OWN in a fresh process (a failure that needs other inputs to have been
+        # processed before it in the same process is reported through a case that carries its history)
+        first, alone = all_fail[0], None
+        for cand in sorted(all_fail, key=lambda e: 0 if isinstance(e['case'], dict) and e['case'].get('history') else 1)[:25]:
+            tmp = os.path.join(lib.WORK, 'repro-%s-%d.json' % (prop_id, os.getpid()))
+            try:
+                with open(tmp, 'w') as f:
+                    json.dump(dict(family=cand['family'], case=cand['case']), f)
+                rc = subprocess.run([lib.PY, os.path.abspath(__file__), 'replay', tmp], stdout=subprocess.DEVNULL,
+                                    stderr=subprocess.DEVNULL, timeout=300,
+                                    env=dict(os.environ, PYTHONPATH=os.path.join(lib.REPO, 'python'))).returncode
+            except Exception:
+                rc = None
+            finally:
+                try:
+                    os.remove(tmp)
+                except OSError:
+                    pass
+            if rc == 1:
+                first, alone = cand, True
+                break
+            if alone is None:
+                alone = False
         path = lib.write_replay(prop_id, dict(property=prop_id, family=first['family'], seed=lib.seed(), tier=tier,
                                              case=first['case'], observed=first['impl'], what=first['what'],
                                              signature=first['signature'], found_failing_input=True,
+                                             fails_in_a_fresh_process=bool(alone), failing_inputs=len(all_fail),
                                              broke=problems[:3]))
         lines.append('VIOLATION property=%s replay=%s' % (prop_id, path))
     elif problems:
